@@ -120,6 +120,14 @@ class C13(Check):
                    "file", "sharded") and rng.random() < 0.5),
                "blksize": rng.choice([512, 4096, 65536]),
                "salt": rng.randrange(1000)}
+        if tier == "thorough" and rng.random() < 0.03:
+            # a destination minishard holding more than 1 MiB of chunk data
+            scn.update(src_kind="file", dst_kind="sharded", enc="raw",
+                       denc="raw", dtype="uint64", ddtype="uint64", nchan=1,
+                       copy_info=False, library_pair=False,
+                       dbits=[0, 0, 0], dshenc=["raw", "raw"],
+                       scales=[{"key": "0um", "size": [64, 64, 32],
+                                "cs": [[32, 32, 32]], "block": [8, 8, 8]}])
         return {"scenario": scn}
 
     # ------------------------------------------------------------------
@@ -334,6 +342,8 @@ class C13(Check):
             res.probe("dtype_widened")
         if scn["denc"] != scn["enc"]:
             res.probe("encoding_changed")
+        if scn["scales"][0]["size"] == [64, 64, 32]:
+            res.probe("minishard_over_1MiB")
         res.digest = log.digest()
         res.steps = fs.total_calls + server.total
         res.nontrivial = compared > 0
